@@ -410,6 +410,8 @@ def run(cx, rep):
     merged_object_closed_rule(cx, rep, "C08.10")
     rep.rule("C08.11", "the body of a named declaration is read in its own scope (not in the scope of the place that first refers to it)")
     declaration_scope_rule(cx, rep, "C08.11")
+    # ---------------------------------------------------------------- C08.12
+    rejecting_visited_set_rule(cx, rep, "C08.12")
     rep.rule("C08.7", "the dispatch table and the schema table of a discriminated union are built alike")
     sibling_tables_rule(cx, rep, "C08.7")
     rep.rule("C08.8", "renaming, introducing or inlining a generic wrapper does not change what a type parameter means (scope stacks are searched innermost-first; = C01.8)")
@@ -607,3 +609,118 @@ def declaration_scope_rule(cx, rep, rid):
                    "%s memoises named types and extracts the declaration through %s with the scope stack `%s` of the referring place still in force: a name inside the declaration that equals a type parameter (or mapped-type variable) of the place it is first reached from is captured, and the wrong body is memoised for every later use" % (g, tg, sf),
                    "%s:%s" % (f.file, x["line"]), sample={"memo_fn": g, "extractor": tg, "stack": sf})
     rep.floor(rid, "extractions of a named declaration from the memoising function", n, 1)
+
+
+# ---------------------------------------------------------------------------------------------------- C08.12
+def rejecting_visited_set_rule(cx, rep, rid):
+    """A set of names `already met` that turns a second meeting into an ERROR is a cycle detector only if it holds
+    the names on the CURRENT PATH of the recursion: a name reached twice through two different branches (a diamond:
+    `type K1 = Base | 'x'; type K2 = Base | 'y'; K1 | K2`) is not a cycle.  So in a recursion that branches (calls
+    itself from a loop or from two places) and shares one set through a `&mut` parameter, an insert whose failure
+    leaves the function with an error must be paired with a removal after the descent (or the set is cloned per
+    branch).  A set that is only used to SKIP what was done before (memo, work list) is not concerned.  The seeded
+    change C08-l added such a guard without the removal: aliases that share a member stopped resolving, and
+    `Record<K1 | K2, V>` silently became an index signature - the inlined spelling kept its four required keys."""
+    F = cx.rs
+    from facts import walk as hwalk
+    rep.rule(rid, "a shared visited set whose hit is reported as an error holds the current path only (insert paired with remove in a branching recursion)")
+    n = 0
+    sccs = None
+    for g, tree in sorted(F.hir.items()):
+        f = F.fns.get(g)
+        if f is None or f.crate == "beff_wasm" or f.kind == "Closure" or "/tests/" in (f.file or ""):
+            continue
+        plids = {}
+        for i, p in enumerate(tree["params"]):
+            for q in hwalk(p):
+                if q["k"] == "P.Binding" and ("BTreeSet<" in (q.get("ty") or "") or "HashSet<" in (q.get("ty") or "")) and (q.get("ty") or "").startswith("&mut"):
+                    plids[q.get("lid")] = i
+        if not plids:
+            continue
+        def set_local(e):
+            while isinstance(e, dict) and e.get("k") in ("AddrOf", "Deref", "DropTemps", "Unary") and e.get("op") != "Not":
+                e = e["e"]
+            return e.get("lid") if isinstance(e, dict) and e.get("k") == "Path" and e.get("lid") in plids else None
+        def errors(b):
+            for x in hwalk(b):
+                if x["k"] == "Ret" and x.get("e") is not None and any(y["k"] == "Call" and (y.get("callee") or "").endswith("::Err") for y in hwalk(x["e"])):
+                    return True
+                if x["k"] == "Call" and (x.get("callee") or "").endswith("::Err"):
+                    return True
+                if x["k"] in ("Call", "MethodCall") and x.get("mac") and any(m in ("bail", "anyhow") for m in x.get("mac") or []):
+                    return True
+            return False
+        rejecting = []
+        for x in hwalk(tree["body"]):
+            if x["k"] != "If":
+                continue
+            c = x["cond"]
+            while c.get("k") == "DropTemps":
+                c = c["e"]
+            neg = False
+            if c.get("k") == "Unary" and c.get("op") == "Not":
+                neg, c = True, c["e"]
+            if c.get("k") == "MethodCall" and c.get("method") == "insert" and neg and set_local(c["recv"]) is not None and errors(x["then"]):
+                rejecting.append((x, set_local(c["recv"])))
+            if c.get("k") == "MethodCall" and c.get("method") == "contains" and not neg and set_local(c["recv"]) is not None and errors(x["then"]):
+                rejecting.append((x, set_local(c["recv"])))
+        if not rejecting:
+            continue
+        for node, S in rejecting:
+            # recursive calls that hand the same set on
+            rec_sites = []
+            in_loop = False
+            def scan(nn, loop):
+                nonlocal in_loop
+                if nn["k"] in ("Call", "MethodCall"):
+                    cal = nn.get("callee") if nn["k"] == "Call" else (nn.get("resolved") or nn.get("callee"))
+                    tg = F._callee_gid(f.crate, cal or "")
+                    if tg is not None and (tg == g or (tg in F.fns and g in F.edges.get(tg, ()) or tg in F.fns and _reaches(F, tg, g))):
+                        args = ([nn["recv"]] if nn["k"] == "MethodCall" else []) + list(nn["args"])
+                        if any(set_local(a) == S for a in args):
+                            rec_sites.append(nn)
+                            if loop:
+                                in_loop = True
+                for key, v in nn.items():
+                    if isinstance(v, dict) and "k" in v:
+                        scan(v, loop or nn["k"] == "Loop" or (nn["k"] == "MethodCall" and v.get("k") == "Closure"))
+                    elif isinstance(v, list):
+                        for y in v:
+                            if isinstance(y, dict):
+                                if "k" in y:
+                                    scan(y, loop or nn["k"] == "Loop" or (nn["k"] == "MethodCall" and y.get("k") == "Closure"))
+                                else:
+                                    for z in y.values():
+                                        if isinstance(z, dict) and "k" in z:
+                                            scan(z, loop or nn["k"] == "Loop")
+            scan(tree["body"], False)
+            if not rec_sites:
+                continue
+            branching = in_loop or len(rec_sites) >= 2
+            if not branching:
+                continue
+            n += 1
+            removed = any(x["k"] == "MethodCall" and x.get("method") in ("remove", "take", "clear", "retain", "pop_last", "pop_first") and set_local(x["recv"]) == S for x in hwalk(tree["body"]))
+            rep.ob(rid, "%s/path-set" % g.rsplit("::", 1)[-1], removed,
+                   "%s reports a name it meets a second time as an error, shares the set of met names with its recursive calls (%d sites%s) and never removes a name again: a name reached through two different branches (a diamond of aliases) is taken for a cycle, so a program that spells a union through aliases sharing a member is rejected or lowered differently from the inlined spelling" % (
+                       g, len(rec_sites), ", one in a loop" if in_loop else ""),
+                   "%s:%s" % (f.file, node.get("line")), sample={"fn": g, "recursive_sites_sharing_the_set": len(rec_sites)})
+    rep.ob(rid, "scan", True, sample={"rejecting_visited_sets_in_branching_recursions": n})
+
+
+def _reaches(F, src, dst, _memo={}):
+    key = (id(F), src, dst)
+    if key in _memo:
+        return _memo[key]
+    seen, todo, ok = {src}, [src], False
+    while todo:
+        x = todo.pop()
+        if x == dst:
+            ok = True
+            break
+        for h in F.edges.get(x, ()):
+            if h not in seen:
+                seen.add(h)
+                todo.append(h)
+    _memo[key] = ok
+    return ok
